@@ -8,6 +8,7 @@ package xpair1
 //@   immutable: p s closeQ
 //@
 //@ struct socket
+//@   never_closed: sendQ
 //@   close_token closeQ when closed
 //@   close_token sizeQ
 //@   lock Mutex level 20
